@@ -134,6 +134,14 @@ class Ctx:
             raise Infra("TLC did not complete cleanly on %s (rc=%d):\n%s" % (name, rc, _strip(out)[-4000:]))
         return st
 
+    def kats(self, modules, seed_const=()):
+        """Published vectors asserted on the TLA+ definitions (spec/selftest): a failure is an infrastructure error."""
+        jobs = [dict(module=m, name=m, constants=({"Seed": self.seed} if m in seed_const else {}), init_next=("Init", "Next"), workers=1, timeout=900, heap="2g") for m in modules]
+        res = self.tlc_many(jobs, parallel=4)
+        for st in res:
+            self.tlc_runs.remove(st)
+        self.extra["kats_asserted"] = sorted(set(self.extra.get("kats_asserted", [])) | set(modules))
+
     def tlc_many(self, jobs, parallel=4):
         """jobs: list of kwargs dicts for self.tlc; run several JVMs at once."""
         res = []
@@ -230,6 +238,11 @@ class Ctx:
                           "exp": "", "cfg": label, "trace": json.loads(tr)})
             tot_tr += cur - start + 1
             start = cur + 1
+            if sum(1 for f in fails if f["kind"] in ("hang", "crash")) >= 5:
+                # five traces have already hung or killed the process under this configuration: the verdict cannot change
+                # any more, and every further hang costs a full timeout - stop replaying this configuration
+                self.extra.setdefault("replay_cut_short", []).append({"cfg": label, "file": os.path.basename(trace_file), "at": start, "of": ntr})
+                break
         for f in fails:
             f["cfgspec"] = {"label": label, "env": cfg.get("env", {}), "tags": list(cfg.get("tags", ("verif",))), "wrap": cfg.get("wrap", "native")}
         if any(f["kind"] == "harness" for f in fails):
@@ -250,15 +263,15 @@ class Ctx:
             for f in futs:
                 f.result()
 
-    def binding_guard(self, trace_file, cfg):
+    def binding_guard(self, trace_file, cfg, field="exp"):
         """A deliberately wrong expectation must be rejected by the replayer, else the binding is broken."""
         mutated = None
         for line in _lines(trace_file):
             t = json.loads(line)
             for st in reversed(t["steps"]):
-                e = st.get("exp")
+                e = st.get(field)
                 if isinstance(e, str) and len(e) >= 2 and re.fullmatch(r"[0-9a-f]+", e):
-                    st["exp"] = e[:-1] + ("0" if e[-1] != "0" else "1")
+                    st[field] = e[:-1] + ("0" if e[-1] != "0" else "1")
                     mutated = t
                     break
             if mutated:
